@@ -229,7 +229,7 @@ impl Report {
     }
 
     /// writes evidence + replay files, prints verdict lines, returns the process exit code
-    pub fn finish(self) -> i32 {
+    pub fn finish(mut self) -> i32 {
         let dir = verif_dir();
         let known = load_known(self.prop);
         let mut exit = 0;
@@ -237,6 +237,15 @@ impl Report {
         let mut seen = BTreeSet::new();
         let _ = std::fs::create_dir_all(dir.join("replays"));
         let _ = std::fs::create_dir_all(dir.join("evidence"));
+        let prop = self.prop;
+        let mut violations = std::mem::take(&mut self.violations);
+        for v in violations.iter_mut() {
+            // a panic inside a library call is reported under the property whose check saw it
+            if v.signature.starts_with("panic/") {
+                v.signature = format!("{}/{}", prop, v.signature);
+            }
+        }
+        self.violations = violations;
         for v in &self.violations {
             if !seen.insert(v.signature.clone()) {
                 continue;
